@@ -351,6 +351,19 @@ def prove(facts, goal, max_cases=None, _lazy=False, _depth=0, _fsplit=0, _univer
             return "proved", None
     if contradictory(facts):
         return "proved", None
+    if _depth == 0 and _fsplit == 0 and not _lazy:
+        # first on the terms as they are: a goal that shares its atoms literally with the facts (len(X) != 0 |- 0 < len(X),
+        # whatever X looks like inside) needs no case split and no normalisation, and those can only lose the literal match
+        try:
+            rel0 = relevant(facts, goal, max_rounds=2)
+            if rel0 and len(rel0) <= 12:
+                st0, _m0 = entails(rel0, goal)
+                if st0 == "proved":
+                    return "proved", None
+        except Exception as e_:  # noqa: BLE001 - the ordinary route decides
+            from .linear import ProofBudgetExceeded as _PBE
+            if isinstance(e_, _PBE):
+                raise
     if _depth < 5:
         # case split on a gated sub-term of the goal: under its condition the gate is its first alternative,
         # under the negation its second (also inside the facts); removes opaque gamma atoms from the linear problem
